@@ -16,7 +16,7 @@ CLAIM = dict(
     technique="runtime monitoring: host simulation of device launches calling the library's kernel-body functions per simulated thread "
               "(sequential schedules with a per-thread write-set monitor, guard regions, KERNEL_WRITE hook) under ASan+UBSan, "
               "and real concurrency on 8-16 std::threads under ThreadSanitizer; oracles: host evaluation and NumPy",
-    text="For 12 (quick) / 57 (thorough) compile-time view pipelines of depth 1..3 over device-tested operations and run-time operand "
+    text="For 13 (quick) / 63 (thorough) compile-time view pipelines of depth 1..3 over device-tested operations and run-time operand "
          "shapes (dim 1..4), data and parameters, the harness mirrors the host side of cuda/hip context_t::run (get_function_composition, "
          "get_function_operands, device copies, device_array{ptr, static_vector<size_t,8>, dim}, output pointer + shape pointer + dim) "
          "and executes, for every thread of a 1-d launch, exactly create_mutable_array<0> / functional::apply / assign_result. "
@@ -313,6 +313,7 @@ def run(ctx):
     ctx.set("tsan_processes", stats["tsan_processes"])
     ctx.set("tsan_host_threads", sorted(mtP))
     ctx.set("distinct_schedules_by_hash", len(schedules))
+    ctx.set("schedule_hash_examples", sorted(schedules)[:6])
     ctx.set("distinct_geometries", len(geometries))
     ctx.set("block_sizes_covered", sorted(bs_seen))
     ctx.set("grid_classes", cls_seen)
@@ -464,6 +465,7 @@ def check_case(ctx, m, t, stats, schedules, geometries, bs_seen, cls_seen, kinds
         for i in range(0, len(hv), 3):
             s = SITE_NAMES.get(hv[i], str(hv[i]))
             ctx.violation(base + "hook:" + s, "%s: bounds hook %s saw index %d outside extent %d inside a kernel body; launch %s" % (pipe.text, s, hv[i + 1], hv[i + 2], ld["launch"]), ld)
-        if len(ctx.samples) < 6 and L["kind"] in ("rand2", "blockrev", "rand") and (len(ctx.samples) % 2 == (1 if L["mt"] else 0)):
-            ctx.sample(dict(pipeline=pipe.text, operand_shapes=det["shapes"], params=m["p"], launch=ld["launch"], threads=len(L["order"]),
-                            writing_threads_seen_by_hook=hev, output_head=mid[:8], build=fl))
+        want = {0: ("asan", 0, "rand2"), 1: ("tsan", 1, "rand"), 2: ("asan", 0, "blockrev"), 3: ("tsan", 1, "evenodd"), 4: ("asan", 0, "ascdesc2"), 5: ("asan", 0, "asc")}.get(len(ctx.samples))
+        if want and want == (fl, 1 if L["mt"] else 0, L["kind"]) and n > 3 and all(sm["pipeline"] != pipe.text for sm in ctx.samples):
+            ctx.sample(dict(pipeline=pipe.text, operand_shapes=det["shapes"], params=m["p"], launch=ld["launch"], threads_executed=len(L["order"]),
+                            threads_beyond_size=beyond, writing_threads_seen_by_hook=hev, output_head=mid[:8], build=fl, schedule_hash=sched_hash(L)))
